@@ -196,3 +196,100 @@ HORIZONTAL_KEY = 'fp_sdr_horizontal_plane'
 HORIZONTAL_WHAT = ('FP_SDR loses the slip direction of an exactly horizontal plane (dip 0, normal (0,0,-1)): rake = '
                    'arctan2(-slip_z, slip_x n_y - slip_y n_x) is arctan2(0, 0) there, so the angles returned (and the Tape '
                    'parameters with h = 1 built from them) do not describe the input source')
+
+
+# ----------------------------------------------------------------------------- batches: n columns at once = column by column
+
+def _flat_out(o):
+    if isinstance(o, (tuple, list)):
+        return [np.asarray(x, dtype=float) for x in o]
+    return [np.asarray(o, dtype=float)]
+
+
+def _column(out, j, n):
+    res = []
+    for a in out:
+        if a.ndim == 0:
+            res.append(a.reshape(1))
+        elif a.ndim == 1:
+            res.append(a[j:j + 1] if a.shape[0] == n else a)
+        elif a.shape[-1] == n:
+            res.append(a[..., j].flatten())
+        elif a.shape[0] == n:
+            res.append(a[j].flatten())
+        else:
+            res.append(a.flatten())
+    return np.concatenate([r.flatten() for r in res])
+
+
+def batch_cases(C, rng):
+    def u6():
+        return unit([rng.gauss(0, 1) for _ in range(6)])
+
+    def u3():
+        return unit([rng.gauss(0, 1) for _ in range(3)])
+
+    def eig3():
+        return sorted([rng.uniform(-1, 1) for _ in range(3)], reverse=True)
+
+    def frame():
+        q = rot(rng)
+        return list(q[:, 0]) + list(q[:, 1])
+
+    def axes():
+        q = rot(rng)
+        return list(q[:, 0]) + list(q[:, 1]) + list(q[:, 2])
+    return {
+        'MT6_Tape': (u6, lambda X: C.MT6_Tape(X)),
+        'MT6_TNPE': (u6, lambda X: C.MT6_TNPE(X)),
+        'E_tk': (eig3, lambda X: C.E_tk(X)),
+        'E_GD': (eig3, lambda X: C.E_GD(X)),
+        'normal_SD': (u3, lambda X: C.normal_SD(X)),
+        'FP_SDR': (frame, lambda X: C.FP_SDR(X[:3], X[3:])),
+        'FP_TNP': (frame, lambda X: C.FP_TNP(X[:3], X[3:])),
+        'TNP_SDR': (axes, lambda X: C.TNP_SDR(X[:3], X[3:6], X[6:])),
+    }
+
+
+def batch_oracle(R, C, names, rounds):
+    """a conversion applied to n columns at once (n = 1..7, so that square blocks occur, arrays and matrices) returns, column by
+    column, what it returns for that column alone"""
+    bad = None
+    cases = batch_cases(C, R.rng)
+    for r in range(rounds):
+        for name in names:
+            gen_col, f = cases[name]
+            for n in (1, 2, 3, 5, 6, 7, 9):
+                for kind in ('array', 'matrix'):
+                    X = np.array([gen_col() for _ in range(n)]).T
+                    R.count(('batch', name, n, kind, r))
+                    try:
+                        out = _flat_out(f(np.matrix(X) if kind == 'matrix' else X.copy()))
+                        for j in range(n):
+                            xj = X[:, j:j + 1]
+                            one = _flat_out(f(np.matrix(xj) if kind == 'matrix' else xj.copy()))
+                            a, b = _column(out, j, n), _column(one, 0, 1)
+                            if a.shape != b.shape or not np.allclose(a, b, rtol=0, atol=1e-9, equal_nan=True):
+                                bad = bad or {'check': 'batch-of-%d-columns' % n, 'routine': name, 'container': kind, 'columns': X.T.tolist(), 'column': j,
+                                              'batched': a.tolist(), 'alone': b.tolist()}
+                                break
+                    except Exception as ex:
+                        bad = bad or {'check': 'batch-of-%d-columns' % n, 'routine': name, 'container': kind, 'columns': X.T.tolist(), 'error': repr(ex)}
+    return bad
+
+
+def batch_replay(C, rp):
+    import random
+    gen_col, f = batch_cases(C, random.Random(0))[rp['routine']]
+    X = np.array(rp['columns'], dtype=float).T
+    n = X.shape[1]
+    out = _flat_out(f(np.matrix(X) if rp['container'] == 'matrix' else X.copy()))
+    for j in range(n):
+        xj = X[:, j:j + 1]
+        one = _flat_out(f(np.matrix(xj) if rp['container'] == 'matrix' else xj.copy()))
+        a, b = _column(out, j, n), _column(one, 0, 1)
+        if a.shape != b.shape or not np.allclose(a, b, rtol=0, atol=1e-9, equal_nan=True):
+            print('column %d: batched %r alone %r' % (j, a.tolist(), b.tolist()))
+            return 1
+    print('batched call agrees with the single calls')
+    return 0
